@@ -349,20 +349,29 @@ class LFRicStencils(LFRicCollection):
 
         if self._unique_extent_vars:
             if self._kernel:
-                for arg in self._kern_args:
+                # Each stencil-size argument is declared with the shape that
+                # the stencil of *its own* kernel argument requires: the four
+                # branch lengths for a 'cross2d' stencil, a scalar otherwise.
+                array_names = []
+                scalar_names = []
+                for arg in self._unique_extent_args:
+                    name = self.dofmap_size_symbol(self._symbol_table,
+                                                   arg).name
                     if arg.descriptor.stencil['type'] == "cross2d":
-                        parent.add(DeclGen(
-                            parent, datatype="integer",
-                            kind=api_config.default_kind["integer"],
-                            dimension="4",
-                            entity_decls=self._unique_extent_vars, intent="in"
-                        ))
+                        array_names.append(name)
                     else:
-                        parent.add(DeclGen(
-                            parent, datatype="integer",
-                            kind=api_config.default_kind["integer"],
-                            entity_decls=self._unique_extent_vars,
-                            intent="in"))
+                        scalar_names.append(name)
+                if scalar_names:
+                    parent.add(DeclGen(
+                        parent, datatype="integer",
+                        kind=api_config.default_kind["integer"],
+                        entity_decls=scalar_names, intent="in"))
+                if array_names:
+                    parent.add(DeclGen(
+                        parent, datatype="integer",
+                        kind=api_config.default_kind["integer"],
+                        dimension="4",
+                        entity_decls=array_names, intent="in"))
             elif self._invoke:
                 parent.add(DeclGen(
                     parent, datatype="integer",
